@@ -111,6 +111,76 @@ fn json_spans(v: &serde_json::Value, out: &mut Vec<(Loc, Loc)>) {
     }
 }
 
+type Sp2 = (Loc, Loc);
+
+fn as_span(v: &serde_json::Value) -> Option<Sp2> {
+    let mut o = Vec::new();
+    if let serde_json::Value::Array(a) = v {
+        if a.len() == 3 && a[0].as_u64() == Some(0) {
+            json_spans(v, &mut o);
+        }
+    }
+    if o.len() == 1 { Some(o[0]) } else { None }
+}
+
+/// the span tree of a serialised AST.  A spanned node `Sp { value, span }` serialises as [value, span]:
+/// its children are the nearest spans inside `value`.  `contains`: (node span, children spans);
+/// `merges`: for strands and modified words (parse.rs:1127-1131, 1198-1202: span = first.merge(last))
+/// (kind, node span, spans of the items / of the modifier and its operands).
+fn span_tree(v: &serde_json::Value, kids: &mut Vec<Sp2>, contains: &mut Vec<(Sp2, Vec<Sp2>)>, merges: &mut Vec<(&'static str, Sp2, Vec<Sp2>)>) {
+    if let Some(sp) = as_span(v) {
+        kids.push(sp);
+        return;
+    }
+    match v {
+        serde_json::Value::Array(a) => {
+            if a.len() == 2 && as_span(&a[0]).is_none() {
+                if let Some(sp) = as_span(&a[1]) {
+                    kids.push(sp);
+                    let mut mine = Vec::new();
+                    span_tree(&a[0], &mut mine, contains, merges);
+                    // only words and modifiers (serialised with a "type" tag): the span of a module node is
+                    // its opening delimiter alone (parse.rs: Sp<ScopedModule> = open_span), a choice of span
+                    // (likewise an array / function pack does not include its leading `↓`): containment is checked for
+                    // the words whose span the parser builds by merging its parts
+                    if !mine.is_empty() && matches!(a[0].get("type").and_then(|t| t.as_str()), Some("Modified" | "Strand" | "Subscripted")) {
+                        contains.push((sp, mine));
+                    }
+                    let direct = |x: &serde_json::Value| x.as_array().filter(|p| p.len() == 2).and_then(|p| as_span(&p[1]));
+                    match (a[0].get("type").and_then(|t| t.as_str()), a[0].get("value")) {
+                        (Some("Strand"), Some(serde_json::Value::Array(items))) => {
+                            let ch: Vec<Sp2> = items.iter().filter_map(direct).collect();
+                            if ch.len() == items.len() && !ch.is_empty() {
+                                merges.push(("strand", sp, ch));
+                            }
+                        }
+                        (Some("Modified"), Some(m)) => {
+                            let mut ch: Vec<Sp2> = m.get("modifier").and_then(direct).into_iter().collect();
+                            if let Some(serde_json::Value::Array(ops)) = m.get("operands") {
+                                ch.extend(ops.iter().filter_map(direct));
+                            }
+                            if !ch.is_empty() {
+                                merges.push(("modified", sp, ch));
+                            }
+                        }
+                        _ => {}
+                    }
+                    return;
+                }
+            }
+            for x in a {
+                span_tree(x, kids, contains, merges);
+            }
+        }
+        serde_json::Value::Object(m) => {
+            for x in m.values() {
+                span_tree(x, kids, contains, merges);
+            }
+        }
+        _ => {}
+    }
+}
+
 fn err_spans(e: &UiuaError, kind: &'static str, out: &mut Vec<Rec>) {
     let mut push = |what: &str, sp: &Span| {
         if let Span::Code(cs) = sp {
@@ -157,10 +227,12 @@ struct Collected {
     panics: Vec<(String, String)>,
     ntok: usize,
     nlexerr: usize,
+    contains: Vec<(Sp2, Vec<Sp2>)>,
+    merges: Vec<(&'static str, Sp2, Vec<Sp2>)>,
 }
 
 fn collect(src: &str, full: bool) -> Collected {
-    let mut c = Collected { recs: Vec::new(), fmt_out: None, panics: Vec::new(), ntok: 0, nlexerr: 0 };
+    let mut c = Collected { recs: Vec::new(), fmt_out: None, panics: Vec::new(), ntok: 0, nlexerr: 0, contains: Vec::new(), merges: Vec::new() };
     if std::env::var("C19_ONLY").as_deref() == Ok("format") {
         collect_format(src, &mut c);
         return c;
@@ -185,6 +257,8 @@ fn collect(src: &str, full: bool) -> Collected {
             let mut sp = Vec::new();
             if let Ok(v) = serde_json::to_value(&items) {
                 json_spans(&v, &mut sp);
+                let mut top = Vec::new();
+                span_tree(&v, &mut top, &mut c.contains, &mut c.merges);
             }
             for (s, e) in sp {
                 c.recs.push(Rec { kind: "ast", what: String::new(), s, e });
@@ -358,6 +432,23 @@ fn monitor(src: &str, c: &Collected) -> Vec<Viol> {
             for x in &mut v[n0..] {
                 x.detail.push_str(&what);
             }
+        }
+    }
+    // the parser's span tree: a node's span contains its children's spans; the span of a strand / modified
+    // word is the merge (derived Ord of Loc: line, col, byte_pos, char_pos) of its parts
+    let lk = |l: &Loc| (l.line, l.col, l.byte_pos, l.char_pos);
+    for (p, kids) in &c.contains {
+        for k in kids {
+            if !(p.0.byte_pos <= k.0.byte_pos && k.1.byte_pos <= p.1.byte_pos && p.0.char_pos <= k.0.char_pos && k.1.char_pos <= p.1.char_pos) {
+                v.push(Viol { key: "ast-contain".into(), kind: "ast", detail: format!("node {} .. {} does not contain its child {} .. {}", loc_str(&p.0), loc_str(&p.1), loc_str(&k.0), loc_str(&k.1)) });
+            }
+        }
+    }
+    for (kind, p, kids) in &c.merges {
+        let st = kids.iter().map(|k| k.0).min_by_key(|l| lk(l)).unwrap();
+        let en = kids.iter().map(|k| k.1).max_by_key(|l| lk(l)).unwrap();
+        if lk(&st) != lk(&p.0) || lk(&en) != lk(&p.1) {
+            v.push(Viol { key: format!("ast-merge/{kind}"), kind: "ast", detail: format!("{kind} span {} .. {} is not the merge {} .. {} of its parts", loc_str(&p.0), loc_str(&p.1), loc_str(&st), loc_str(&en)) });
         }
     }
     // token spans: ordered, non-overlapping, gaps = whitespace or inside a lexing-error span
@@ -872,6 +963,34 @@ fn main() {
                     }
                     write!(line, "[{},{},{}]", jstr(rc.kind), loc_json(&rc.s), loc_json(&rc.e)).unwrap();
                 }
+                line.push_str("],\"contains\":[");
+                for (j, (p, kids)) in c.contains.iter().enumerate() {
+                    if j > 0 {
+                        line.push(',');
+                    }
+                    write!(line, "[[{},{}],[", loc_json(&p.0), loc_json(&p.1)).unwrap();
+                    for (i, k) in kids.iter().enumerate() {
+                        if i > 0 {
+                            line.push(',');
+                        }
+                        write!(line, "[{},{}]", loc_json(&k.0), loc_json(&k.1)).unwrap();
+                    }
+                    line.push_str("]]");
+                }
+                line.push_str("],\"merges\":[");
+                for (j, (kind, p, kids)) in c.merges.iter().enumerate() {
+                    if j > 0 {
+                        line.push(',');
+                    }
+                    write!(line, "[{},[{},{}],[", jstr(kind), loc_json(&p.0), loc_json(&p.1)).unwrap();
+                    for (i, k) in kids.iter().enumerate() {
+                        if i > 0 {
+                            line.push(',');
+                        }
+                        write!(line, "[{},{}]", loc_json(&k.0), loc_json(&k.1)).unwrap();
+                    }
+                    line.push_str("]]");
+                }
                 line.push_str("],\"out\":");
                 match &c.fmt_out {
                     Some((out, ps)) if out.chars().count() <= 1500 => {
@@ -1007,7 +1126,7 @@ fn main() {
             ] {
                 let src = format!("F={}", "+".repeat(npl));
                 begin(&src);
-                let mut c = Collected { recs: Vec::new(), fmt_out: None, panics: Vec::new(), ntok: 0, nlexerr: 0 };
+                let mut c = Collected { recs: Vec::new(), fmt_out: None, panics: Vec::new(), ntok: 0, nlexerr: 0, contains: Vec::new(), merges: Vec::new() };
                 collect_format(&src, &mut c);
                 let mut seen: Vec<String> = Vec::new();
                 if c.fmt_out.is_none() {
